@@ -269,4 +269,54 @@ theorem filterMap_all_some {α β : Type} (f : α → Option β) (g : α → β)
     rw [List.filterMap_cons, h a (by simp), ih (fun b hb => h b (by simp [hb]))]
     rfl
 
+/-! ### what the spec-level slice means in terms of `drop` / `take` / `reverse` -/
+
+theorem fm_drop_take {α : Type} (l : List α) (a : Nat) : ∀ cnt : Nat,
+    ((List.range cnt).map (fun (i : Nat) => (a : Int) + 1 * (i : Int))).filterMap
+      (fun i => if 0 ≤ i then l[i.toNat]? else none) = (l.drop a).take cnt := by
+  intro cnt
+  induction cnt with
+  | zero => simp
+  | succ c ih =>
+    rw [List.range_succ, List.map_append, List.filterMap_append, ih, List.take_add_one, List.getElem?_drop]
+    congr 1
+    have h0 : (0 : Int) ≤ (a : Int) + 1 * (c : Int) := by omega
+    have e : ((a : Int) + 1 * (c : Int)).toNat = a + c := by omega
+    simp only [List.map_cons, List.map_nil, List.filterMap_cons, h0, if_true, e, List.filterMap_nil]
+    cases l[a + c]? <;> rfl
+
+
+theorem filterMap_congr' {α β : Type} (f g : α → Option β) :
+    ∀ l : List α, (∀ a ∈ l, f a = g a) → l.filterMap f = l.filterMap g := by
+  intro l
+  induction l with
+  | nil => intro _; rfl
+  | cons a t ih =>
+    intro h
+    rw [List.filterMap_cons, List.filterMap_cons, h a (by simp), ih (fun b hb => h b (by simp [hb]))]
+
+
+theorem fm_reverse {α : Type} : ∀ l : List α,
+    ((List.range l.length).map (fun (i : Nat) => (l.length : Int) - 1 + (-1) * (i : Int))).filterMap
+      (fun i => if 0 ≤ i then l[i.toNat]? else none) = l.reverse := by
+  intro l
+  induction l with
+  | nil => rfl
+  | cons x t ih =>
+    rw [List.length_cons, List.range_succ, List.map_append, List.filterMap_append, List.reverse_cons]
+    congr 1
+    · rw [← ih, List.filterMap_map, List.filterMap_map]
+      apply filterMap_congr'
+      intro i hi
+      have hi' : i < t.length := List.mem_range.1 hi
+      simp only [Function.comp]
+      have h0 : (0 : Int) ≤ ((t.length + 1 : Nat) : Int) - 1 + (-1) * (i : Int) := by omega
+      have h1 : (0 : Int) ≤ (t.length : Int) - 1 + (-1) * (i : Int) := by omega
+      simp only [h0, h1, if_true]
+      have e : (((t.length + 1 : Nat) : Int) - 1 + (-1) * (i : Int)).toNat = ((t.length : Int) - 1 + (-1) * (i : Int)).toNat + 1 := by omega
+      rw [e, List.getElem?_cons_succ]
+    · have e : ((t.length + 1 : Nat) : Int) - 1 + (-1) * (t.length : Int) = 0 := by omega
+      simp only [List.map_cons, List.map_nil, e, List.filterMap_cons, List.filterMap_nil]
+      rfl
+
 end NV.ListLike
